@@ -1,4 +1,4 @@
-SOURCE_COMMITS = ['2a82dd5', '23b3277', 'd11a4bc']
+SOURCE_COMMITS = ['2a82dd5', '23b3277', 'd11a4bc', '0ff938d']
 NOTES = ('Exit codes of ./check: 0 all obligations discharged; 1 violation (VIOLATION line); '
          '2 undecided (solver unknown / extraction failure / contract binding lost); 3 checker crash. '
          'See DESIGN.md.')
@@ -53,4 +53,12 @@ CLAIMED = {
    note='Trusted: each gfile/os primitive is one atomic effect, rename atomic, pickle round trip, sorted() contract; the premise '
         '(round-deterministic algorithm, round-indexed sampler) is modelled by uninterpreted APPLY/SAMPLE (checked for the built-ins in '
         'C10/C13); root_dir without regex metacharacters. Native crash-injection driver replays refutations.'),
+ 'C19': dict(
+   text='Proof over a ghost cache directory with per-call fault flags: after every effect of the real maybe_download / '
+        'maybe_lzma_decompress (open, each block write, rename, copy) and on every exceptional exit, a non-.partial path exists only '
+        'with the complete payload; the block loop invariant written = min(k*block, len) gives completeness at the rename for every '
+        'payload length; a complete cached file is reused without any network call; validate_file returns iff size and sha256 match.',
+   note='Trusted: open("wb") truncates, write appends or raises, os.rename atomic, raw.read(b) returns min(b, remaining) or raises, '
+        'content-length equals the payload size, copyfileobj copies all or raises. Not covered: concurrent callers; '
+        'cifar100.load_split building its SQLite file in place.'),
 }
